@@ -152,6 +152,10 @@ def enumerate_faults(doc: dict) -> list[dict]:
     schemas = (doc.get("components") or {}).get("schemas") or {}
     for piece in SCHEMA_PIECES:
         out.append({"piece": piece, "pos": "new-component"})
+    for name, s_ in schemas.items():
+        if _is_object(s_) and _name_variant_of_own_prop(doc, name) is not None:
+            # a bad child whose own property pythonises to the name of an inherited one ("beta_value" next to the parent's "betaValue")
+            out.append({"piece": "child-prop-clashes-with-inherited", "pos": "new-component-referencing", "schema": name})
     for piece in ("allof-conflict-component", "allof-non-object-component", "allof-enum-component"):
         for name, s in schemas.items():
             if _is_object(s) and piece != "allof-enum-component" or (piece == "allof-enum-component" and isinstance(s, dict) and "enum" in s):
@@ -236,6 +240,23 @@ class NotApplicable(Exception):
     pass
 
 
+def _name_variant_of_own_prop(doc: dict, schema_name: str) -> str | None:
+    """Another spelling of one of the schema's own property names that gives the same Python identifier (fooBar <-> foo_bar),
+    and is not itself a property of the schema."""
+    props = _own_props(doc, schema_name)
+    for pn in props:
+        if re.fullmatch(r"[a-z]+[A-Z][a-z]+", pn):
+            var = re.sub(r"([A-Z])", lambda m: "_" + m.group(1).lower(), pn)
+        elif re.fullmatch(r"[a-z]+_[a-z]+", pn):
+            a_, b_ = pn.split("_")
+            var = a_ + b_.capitalize()
+        else:
+            continue
+        if var not in props:
+            return var
+    return None
+
+
 def _norm(k: str) -> str:
     return re.sub(r"[^a-z0-9]", "", str(k).lower())
 
@@ -256,7 +277,12 @@ def apply_fault(doc: dict, f: dict, n: int = 0) -> tuple[dict, set[str], list[st
         tgt = f["schema"]
         if tgt not in schemas:
             raise NotApplicable(tgt)
-        if piece == "allof-conflict-component":
+        if piece == "child-prop-clashes-with-inherited":
+            var = _name_variant_of_own_prop(doc, tgt)
+            if var is None:
+                raise NotApplicable("no property with a spelling variant")
+            schemas[name] = {"allOf": [{"$ref": f"#/components/schemas/{tgt}"}, {"type": "object", "properties": {var: {"type": "string"}, bad: {"type": "array"}}}]}
+        elif piece == "allof-conflict-component":
             props = _own_props(doc, tgt)
             if not props:
                 raise NotApplicable("no property to conflict with")
